@@ -246,7 +246,7 @@ def run(ctx):
     if ok:
         ev = [json.loads(x) for x in vlib.read_lines(tr, 1, 6)]
         ctx.sample({"kind": "recorded trace (first events of the datagram run)", "events": [{k: v for k, v in e.items() if k != "script"} for e in ev]})
-    rd = random_datagrams(rnd, [g["d"] for g in pools["ok"]], 1200 if q else 30000)
+    rd = random_datagrams(rnd, [g["d"] for g in pools["ok"]], 2400 if q else 30000)
     run_scripts(ctx, exe, datagram_scripts(rnd, rd), "rnddgrams", "%d random / mutated datagrams" % len(rd), replayed=False)
 
     # 2. lookups: every script of the bounded model (BFS), a sample of the next depth, deep random ones
@@ -257,9 +257,9 @@ def run(ctx):
     d4 = ctx.tlc_gen("Dns", "Gen_DnsLookup.tla", "Gen_DnsLookup_d4.cfg")
     d4.sort(key=json.dumps)
     if q:
-        d4 = rnd.sample(d4, 3000)
+        d4 = rnd.sample(d4, 6000)
     run_scripts(ctx, exe, [concretise(rnd, b, pools) for b in d4], "lookups4", "%d lookup scripts of depth 4" % len(d4))
-    hist = [random_history(rnd, pools, rnd.randrange(8, 40)) for _ in range(1200 if q else 12000)]
+    hist = [random_history(rnd, pools, rnd.randrange(8, 40)) for _ in range(2000 if q else 12000)]
     run_scripts(ctx, exe, hist, "histories", "%d random histories (1-3 servers, duplicates, nested calls)" % len(hist), replayed=False)
 
     # 3. uninitialised reads: valgrind memcheck on a plain build, the hostile datagrams again (a subset in the quick tier)
@@ -267,7 +267,7 @@ def run(ctx):
         plain = vlib.build("c15_dns", SRC, ["c15_dns/driver.cpp"], flavour="plain", defines=DEFS)
         sub = gens + rd
         if q:
-            sub = [g for g in gens if g["tag"] in ("trunc", "good", "an+2", "qd=2", "ptr-out", "ptr-end", "rdlen+1")][::3] + rd[:160]
+            sub = [g for g in gens if g["tag"] in ("trunc", "good", "an+2", "qd=2", "ptr-out", "ptr-end", "rdlen+1")][::2] + rd[:320]
         vg = ["valgrind", "-q", "--error-exitcode=97", "--undef-value-errors=yes", "--track-origins=no", "--leak-check=no"]
         run_scripts(ctx, plain, datagram_scripts(rnd, sub) + hist[:20 if q else 300], "memcheck",
                     "valgrind memcheck: %d datagrams + histories" % len(sub), replayed=False, wrapper=vg)
